@@ -41,12 +41,13 @@ blen = z3.Function("bytes_len", I, I)                      # Py_SIZE of a bytes 
 bytes_of = z3.Function("bytes_of", I, z3.ArraySort(I, I))  # ob_sval[0..len] as (signed) chars
 richcmp_obj = z3.Function("richcmp_obj", I, I, I, I)        # PyObject_RichCompare(a, b, op): CPython's result object (0 = NULL)
 truth_of = z3.Function("truth_of", I, I)                    # PyObject_IsTrue(x): 1 / 0 / -1
+list_allocated = z3.Function("list_allocated", I, I)   # PyListObject.allocated (slots of ob_item)
 pow2u = z3.Function("pow2", I, I)          # 2**n for n beyond what the C code computes itself
 generic = z3.Function("generic_result", I, I, I, I, I, B)   # generic_result(opcode, a, b, c, r): r = CPython's own result
 
 PYLONG_SHIFT = 30
 OPCODES = {"pow": 1, "ipow": 1, "lshift": 2, "add": 3, "sub": 4, "mul": 5, "floordiv": 6, "mod": 7, "and": 8, "or": 9, "xor": 10,
-           "rshift": 11, "truediv": 12, "richcmp": 13, "getitem": 14, "index": 15, "long": 16, "setitem": 17, "delitem": 18, "methodcall": 19}
+           "rshift": 11, "truediv": 12, "richcmp": 13, "getitem": 14, "index": 15, "long": 16, "setitem": 17, "delitem": 18, "methodcall": 19, "list_append": 20}
 
 
 PYNUMBER = {"Add": "add", "Subtract": "sub", "Multiply": "mul", "FloorDivide": "floordiv", "Remainder": "mod", "And": "and", "Or": "or",
@@ -148,10 +149,7 @@ class CExecPyObj(CExecL3):
                 self.use_rep(st, o)
                 return ("mem", Ptr(node_type(n), ("pydigits", o), z3.IntVal(0)))
             if path == "allocated":
-                self.assumptions.add("PyListObject.allocated >= ob_size (CPython list invariant)")
-                al = z3.Function("list_allocated", I, I)(o)
-                st.path.append(z3.And(al >= seq_len(o), al < 2 ** 62))
-                return ("const", CV(node_type(n), al))
+                return ("const", CV(node_type(n), self.allocated(st, o)))
             if path == "ob_fval":
                 self.assumptions.add("PyFloat_AS_DOUBLE(o) (ob_fval) is the value of the float object")
                 return ("const", CV(node_type(n), fval(o)))
@@ -164,6 +162,32 @@ class CExecPyObj(CExecL3):
 
     def lval(self, st, n):
         return CExecL3.lval(self, st, n)
+
+    ghost_objs = {}
+
+    def gkey(self, kind, o):
+        key = "%s[%s]" % (kind, o)
+        self.ghost_objs[key] = o            # (class-level: inlined calls run in a copy of the executor)
+        return key
+
+    def mem_default(self, key):
+        import re as _re
+        m = _re.match(r"(listsize|listitems|liststore|liststores)\[(.*)\]$", key)
+        if not m:
+            return None
+        o = getattr(self, "ghost_objs", {}).get(key)
+        if o is None:
+            return None
+        i = z3.Int("i!dflt")
+        return {"listsize": lambda: seq_len(o), "listitems": lambda: z3.Lambda([i], item(o, i)),
+                "liststore": lambda: z3.K(I, z3.IntVal(0)), "liststores": lambda: z3.IntVal(0)}[m.group(1)]()
+
+    def allocated(self, st, o):
+        """PyListObject.allocated: the number of slots of ob_item; only `>= ob_size` is known about it"""
+        self.assumptions.add("PyListObject.allocated >= ob_size (CPython list invariant)")
+        al = list_allocated(o)
+        st.path.append(z3.And(al >= seq_len(o), al < 2 ** 62))
+        return al
 
     def load(self, st, p, node):
         if isinstance(p, Ptr) and isinstance(p.obj, tuple) and p.obj[0] == "pyitems":
@@ -227,8 +251,8 @@ class CExecPyObj(CExecL3):
             o = self.oid(self.ev(st, argn[0]))
             v = self.ev(st, argn[1])
             # the allocation is not changed: the new size must stay inside what was allocated for the original size
-            self.oblige(st, "ub", "Py_SET_SIZE.within_allocation", z3.And(v.t >= 0, v.t <= seq_len(o)), n)
-            st.mem["listsize[%s]" % o] = v.t
+            self.oblige(st, "ub", "Py_SET_SIZE.within_allocation", z3.And(v.t >= 0, v.t <= self.allocated(st, o)), n)
+            st.mem[self.gkey("listsize", o)] = v.t
             self.assumptions.add("Py_SET_SIZE(o, n) sets ob_size (ghost state per object; seq_len(o) stays the size at entry)")
             return None
         if name.startswith("__Pyx_CallUnboundCMethod") or name in ("__Pyx__PyObject_PopIndex", "__Pyx__PyObject_PopNewIndex"):
@@ -358,7 +382,7 @@ class CExecPyObj(CExecL3):
                 self.oblige(st, "ub", "memmove.whole_elements", z3.And(nbytes >= 0, nbytes % 8 == 0), n)
                 self.oblige(st, "ub", "memmove.dst_inside_items", z3.And(d.off >= 0, d.off + nel <= seq_len(o)), n)
                 self.oblige(st, "ub", "memmove.src_inside_items", z3.And(s_.off >= 0, s_.off + nel <= seq_len(o)), n)
-                key = "listitems[%s]" % o
+                key = self.gkey("listitems", o)
                 i = z3.Int("i!mm")
                 cur = st.mem[key] if key in st.mem else z3.Lambda([i], item(o, i))
                 st.mem[key] = z3.Lambda([i], z3.If(z3.And(i >= d.off, i < d.off + nel), z3.Select(cur, i - d.off + s_.off), z3.Select(cur, i)))
@@ -375,8 +399,10 @@ class CExecPyObj(CExecL3):
             o = self.oid(self.ev(st, argn[0]))
             idx = self.ev(st, argn[1])
             st.path.append(z3.And(seq_len(o) >= 0, seq_len(o) < 2 ** 62))
-            self.oblige(st, "ub", "oob_%s.ob_item" % ("read" if name.endswith("GET_ITEM") else "write"), z3.And(idx.t >= 0, idx.t < seq_len(o)), n)
-            key = "liststore[%s]" % o
+            # a read must stay below the size, a write inside the allocated slots (appending writes slot ob_size before the size is raised)
+            lim = seq_len(o) if name.endswith("GET_ITEM") else self.allocated(st, o)
+            self.oblige(st, "ub", "oob_%s.ob_item" % ("read" if name.endswith("GET_ITEM") else "write"), z3.And(idx.t >= 0, idx.t < lim), n)
+            key = self.gkey("liststore", o)
             if key not in st.mem:
                 st.mem[key] = z3.K(I, z3.IntVal(0))      # 0 = slot not written by the subject
             if name == "PyList_GET_ITEM":
@@ -386,9 +412,41 @@ class CExecPyObj(CExecL3):
                 return Ptr(parse_type("PyObject *"), "pyobj", r)
             v = self.oid(self.ev(st, argn[2]))
             st.mem[key] = z3.Store(st.mem[key], idx.t, v)
-            st.mem["liststores[%s]" % o] = st.mem.get("liststores[%s]" % o, z3.IntVal(0)) + 1
+            st.mem[self.gkey("liststores", o)] = st.mem.get("liststores[%s]" % o, z3.IntVal(0)) + 1
             self.assumptions.add("PyList_GET_ITEM / PyList_SET_ITEM read / overwrite slot ob_item[i] (0 <= i < size is an obligation)")
             return None
+        if name == "PyList_Append":
+            o = self.oid(self.ev(st, argn[0]))
+            v = self.oid(self.ev(st, argn[1]))
+            r = self.fresh("list_append")
+            st.path.append(z3.And(r >= -1, r <= 0, generic(z3.IntVal(OPCODES["list_append"]), o, v, z3.IntVal(0), r)))
+            e2 = self.fresh("err_after_append")
+            st.path.append(z3.Implies(r == 0, e2 == st.err))
+            st.err = e2
+            self.assumptions.add("PyList_Append(l, x) is CPython's own append (0, or -1 with an exception)")
+            return CV(ty, r)
+        if name in ("__Pyx_PyObject_CallMethod1", "__Pyx_PyObject_CallMethod0"):
+            import re as _re
+            import json as _json
+            # the interned name: __pyx_mstate_global->__pyx_string_tab[K], with `#define __pyx_n_u_<name> __pyx_string_tab[K]` in the module
+            dump = _json.dumps(argn[1])
+            m = _re.search(r'"IntegerLiteral".*?"value": "(\d+)"', dump) if "__pyx_string_tab" in dump else None
+            m = m and _re.search(r"#define __pyx_n_[us]_(\w+) __pyx_string_tab\[%s\]" % m.group(1), getattr(self, "tu_text", ""))
+            if not m:
+                raise OutOfSubset("method name of %s" % name)
+            from .pyfe import intern_id
+            ids = [self.oid(self.ev(st, argn[0])), z3.IntVal(intern_id("method:" + m.group(1)))]
+            ids.append(self.oid(self.ev(st, argn[2])) if len(argn) > 2 else z3.IntVal(0))
+            r = self.obj(st, ty, "generic")
+            st.path[-1] = r.off >= 0          # may be NULL (exception)
+            from .cfe import mark_nullable
+            mark_nullable(r.off)
+            st.path.append(generic(z3.IntVal(OPCODES["methodcall"]), ids[0], ids[1], ids[2], r.off))
+            e2 = self.fresh("err_after_method")
+            st.path.append(z3.Implies(r.off >= 1, e2 == st.err))
+            st.err = e2
+            self.assumptions.add("__Pyx_PyObject_CallMethod0/1(o, name, x) is the Python-level call o.name(x) (result object, or NULL with an exception)")
+            return r
         if name == "__Pyx_SetItemInt_Generic":
             o = self.oid(self.ev(st, argn[0]))
             j = self.oid(self.ev(st, argn[1]))
